@@ -21,7 +21,7 @@ pub static SPEC: PropSpec = PropSpec {
     rule: "queries = (text, line, col, kind) with kind in {hover, dot, colon-colon}; texts: corpus files, prefixes cut at token boundaries, 1-3-edit token/char mutations, and templated programs with known types/members; positions: token boundaries, after every '.' and '::', one past line ends, past EOF, u32::MAX; a query is non-trivial when its text differs from every corpus file or it is an agreement query; distinct by hash of (text, position, kind)",
     eval_counter: "queries",
     assumptions: &[
-        "hover agreement is checked against the type written in an annotation (binder, later use, and an unannotated alias) - types the generator does not annotate are not compared",
+        "hover agreement is checked against the type written in an annotation (binder, later use, and an unannotated alias) and, for 24 expression positions (callee paths of UFCS / inherent / dot / generic calls, field names, constructors, literals, arguments), against the declared signature with Self and type parameters instantiated",
         "completion soundness is judged against the member sets of the templated declarations; completeness is recorded, not required",
         "line/col use the line-index crate's convention (0-based line, UTF-8 byte column)",
     ],
@@ -287,6 +287,98 @@ fn agreement_hover(case: &mut Case, rng: &mut Rng) {
     case.sample(json!({"workload":"hover_agreement","text": util::truncate(&src[DECLS.len()..], 400)}));
 }
 
+/// (statement text with `@` marking the hover position, expected type, what)
+const EXPR_PROBES: &[(&str, &str, &str)] = &[
+    ("let e = @Tr::tm(sv);", "(S) -> int32", "trait path of a UFCS call"),
+    ("let e = Tr::@tm(sv);", "(S) -> int32", "method of a UFCS call"),
+    ("let e = Tr::@tn(sv, 2);", "(S, int32) -> string", "method of a UFCS call"),
+    ("let e = Tr::@tm(5);", "(int32) -> int32", "method of a UFCS call on a primitive"),
+    ("let e = Tr::@tn(7, 2);", "(int32, int32) -> string", "method of a UFCS call on a primitive"),
+    ("let e = Tr::@tm(dv);", "(dyn Tr) -> int32", "method of a UFCS call on a dyn value"),
+    ("let e = Tr::tm(@sv);", "S", "receiver argument"),
+    ("let e = S::@get(sv);", "(S) -> int32", "inherent method path"),
+    ("let e = S::@label(sv, \"p\");", "(S, string) -> string", "inherent method path"),
+    ("let e = sv.@get();", "(S) -> int32", "method name of a dot call"),
+    ("let e = sv.@gone();", "(S) -> S", "method name of a dot call"),
+    ("let e = sv.@a;", "int32", "field name"),
+    ("let e = sv.@b;", "string", "field name"),
+    ("let e = @inc(3);", "(int32) -> int32", "function name in a call"),
+    ("let e = @idg(true);", "(bool) -> bool", "generic function name in a call"),
+    ("let e = @idg(sv);", "(S) -> S", "generic function name in a call"),
+    ("let e = @idg(3);", "(int32) -> int32", "generic function name in a call"),
+    ("let e = pv.@first();", "(P[int32, bool]) -> int32", "generic inherent method"),
+    ("let e = P::@first(pv);", "(P[int32, bool]) -> int32", "generic inherent method path"),
+    ("let e = @gb(sv);", "(S) -> int32", "bounded generic function name"),
+    ("let e = @Eb(1);", "E", "constructor"),
+    ("let e = @Some(1);", "Opt[int32]", "generic constructor"),
+    ("let e = (1, @\"lit\");", "string", "literal"),
+    ("let e = inc(@3);", "int32", "literal argument"),
+];
+
+fn agreement_hover_exprs(case: &mut Case, rng: &mut Rng) {
+    let mut src = String::from(DECLS);
+    src.push_str("impl Tr for int32 { fn tm(self: int32) -> int32 { self } fn tn(self: int32, k: int32) -> string { \"i\" } }\nfn inc(x: int32) -> int32 { x + 1 }\nfn idg[T](x: T) -> T { x }\nfn gb[T: Tr](t: T) -> int32 { t.tm() }\n");
+    src.push_str("fn main() {\n    let sv = S { a: 1, b: \"x\" };\n    let dv: dyn Tr = sv;\n    let pv = P { x: 1, y: true };\n");
+    let mut idx: Vec<usize> = (0..EXPR_PROBES.len()).collect();
+    rng.shuffle(&mut idx);
+    idx.truncate(6 + rng.below(8));
+    let mut probes: Vec<(usize, &'static str, &'static str)> = Vec::new();
+    for (k, i) in idx.iter().enumerate() {
+        let (text, ty, what) = EXPR_PROBES[*i];
+        let text = text.replacen("let e", &format!("let e{}", k), 1);
+        let at = text.find('@').unwrap();
+        src.push_str(&" ".repeat(4 + rng.below(3)));
+        probes.push((src.len() + at, ty, what));
+        src.push_str(&text.replace('@', ""));
+        src.push('\n');
+    }
+    src.push_str("    ()\n}\n");
+    runner::note_input(&src);
+    match runner::guard(|| typecheck_errors(&src)) {
+        Ok(Ok(errs)) if errs.is_empty() => {}
+        Ok(Ok(errs)) => {
+            case.count("template_rejected", 1);
+            case.inconclusive(format!("hover template rejected by the typer: {}", util::truncate(&errs.join("; "), 200)));
+            return;
+        }
+        _ => {
+            case.count("template_rejected", 1);
+            return;
+        }
+    }
+    for (off, ty, what) in probes {
+        let (l, c) = line_col(&src, off);
+        case.count("queries", 1);
+        case.count("queries_agreement", 1);
+        case.nontrivial(hash_str(&src) ^ (off as u64).wrapping_mul(0x9E3779B97F4A7C15));
+        match runner::guard(|| query::hover_type(p(), &src, l, c)) {
+            Ok(Ok(got)) => {
+                case.count("hover_agreement_checked", 1);
+                case.count("hover_expression_probes", 1);
+                if norm(&got) != norm(ty) {
+                    case.violation(
+                        format!("hover-disagrees:{}:{}", what, norm(ty)),
+                        format!("hover on {} of type `{}` reports `{}`", what, ty, got),
+                        json!({"input": src, "line": l, "col": c, "expected": ty, "got": got, "what": what}),
+                    );
+                }
+            }
+            Ok(Err(e)) => {
+                case.count("hover_agreement_checked", 1);
+                case.violation(
+                    format!("hover-missing:{}:{}", what, norm(ty)),
+                    format!("hover on {} of type `{}` returns an error: {}", what, ty, e),
+                    json!({"input": src, "line": l, "col": c, "expected": ty, "error": e, "what": what}),
+                );
+            }
+            Err(pn) => {
+                case.violation(runner::panic_signature(&pn), format!("hover panicked at {}", pn.site), json!({"input": src, "line": l, "col": c}));
+            }
+        }
+    }
+    case.sample(json!({"workload":"hover_agreement_expressions","probes": EXPR_PROBES.len()}));
+}
+
 fn agreement_dot(case: &mut Case, rng: &mut Rng) {
     let m = &RECEIVERS[rng.below(RECEIVERS.len())];
     // choose a prefix of one of the members (or empty)
@@ -461,6 +553,7 @@ fn run(ctx: &mut Ctx) {
     for i in 0..nb {
         let mut rng = Rng::keyed(seed, "c20-agree", ctx.shard as u64, i);
         ctx.case(&format!("hover_agree/{}/{}", ctx.shard, i), |c| agreement_hover(c, &mut rng));
+        ctx.case(&format!("hover_agree_expr/{}/{}", ctx.shard, i), |c| agreement_hover_exprs(c, &mut rng));
         ctx.case(&format!("dot_agree/{}/{}", ctx.shard, i), |c| agreement_dot(c, &mut rng));
         ctx.case(&format!("colon_agree/{}/{}", ctx.shard, i), |c| agreement_colon(c, &mut rng));
     }
